@@ -88,6 +88,10 @@ func init() {
 			L.AddEntity(c07GenLocalEntity(w, L, []uint{1}))
 			d.subbed = w.NewPeer("P1", "d:_i:P1", L)
 			d.other = w.NewPeer("P2", "d:_i:P2", L)
+			// what real devices do: the subscription call of P1's node management overtakes its
+			// own discovery reply (the node does not know P1's device address yet)
+			early := w.T.Bool(1, 3, "subscribes-before-answering-discovery")
+			d.subbed.AutoDD = !early
 			for _, p := range []*Peer{d.subbed, d.other} {
 				stdPeerTree(p, false)
 				p.Connect()
@@ -96,14 +100,33 @@ func init() {
 			d.snap(w)
 			ready := false
 			w.Go("setup", func() {
-				d.subbed.AwaitDiscovery()
+				nmT := model.FeatureTypeTypeNodeManagement
+				if early {
+					w.Fault("net.reorder")
+					w.Probe("c07-subscription-before-discovery-reply")
+				} else {
+					d.subbed.AwaitDiscovery()
+				}
 				// P1's node management subscribes to ours
-				c := d.subbed.SendSubscribe(d.subbed.NM(), d.subbed.LocalNM(), model.FeatureTypeTypeNodeManagement, false, "sub-nm")
+				c := d.subbed.SendSubscribe(d.subbed.NM(), d.subbed.LocalNM(), nmT, false, "sub-nm")
 				d.subbed.Await(c)
 				if !okResult(d.subbed, c) {
 					w.Violate("C07/node-management-subscription-refused", "a node management subscription was refused")
 				}
 				d.other.AwaitDiscovery()
+				if w.T.Bool(1, 2, "other-subscribes-and-unsubscribes") {
+					// the other peer's node management subscribes, too, and takes its own subscription
+					// back: it is told nothing from then on, and nobody else's subscription is touched
+					o := d.other
+					o.Await(o.SendSubscribe(o.NM(), o.LocalNM(), nmT, false, "sub-nm-other"))
+					o.Await(o.SendUnsubscribe(o.NM().Address(), o.LocalNM(), "unsub-nm-other"))
+					w.Probe("c07-other-peer-unsubscribed")
+				}
+				if early {
+					d.subbed.AutoDD = true
+					d.subbed.AnswerHeldDiscovery()
+					d.subbed.AwaitDiscovery()
+				}
 				ready = true
 			})
 			w.Go("app", func() {
